@@ -17,7 +17,7 @@ import (
 func init() {
 	Register("C01", &CheckInfo{
 		Fn: checkC01, Level: "model_checking",
-		Rule: "differential replay of whole histories on the real app built from sources rewritten through the map-order/clock seam (every range over a map and every time.Now in x/, app/, lib/, utils/, types/; site list recomputed from the current tree): histories = shared skeletons + mode-tie + multi-reward skeletons with <=k deviations (quick: k=0 over all, k=1 over the order-sensitive sub-alphabet around the mode-tie and multi-reward skeletons, first two dynamic occurrences per seam site and history; thorough: k=1 full alphabet, every occurrence); for each history the reference run (sorted key order) is compared with one re-execution per dynamic map-range occurrence (>=2 keys) x every alternative key order (all permutations up to 4 keys, else reverse+rotations), with an adversarial wall clock, with a different node configuration (AppOptions/viper) and with a plain second run; oracle: identical per-block digests (all store key/values + all events in order) and identical tx accept/reject vectors",
+		Rule: "differential replay of whole histories on the real app built from sources rewritten through the map-order/clock seam (every range over a map and every time.Now in x/, app/, lib/, utils/, types/; site list recomputed from the current tree): histories = shared skeletons (without the two 2 000-block ones) + mode-tie, multi-reward, equal-power-reward and three-way-mode-tie skeletons with <=k deviations (quick: k=0 over all, k=1 over the order-sensitive sub-alphabet around the multi-reward, equal-power-reward and three-way-mode-tie skeletons, first two dynamic occurrences per seam site and skeleton history, the first in deviated histories; thorough: k=1 full alphabet, every occurrence); for each history the reference run (sorted key order) is compared with one re-execution per dynamic map-range occurrence (>=2 keys) x every alternative key order (all permutations up to 4 keys, else reverse+rotations), with an adversarial wall clock, with a different node configuration (AppOptions/viper) and with a plain second run; oracle: identical per-block digests (all store key/values + all events in order) and identical tx accept/reject vectors",
 		Assume:      []string{"map iteration inside cosmos-sdk/cometbft/go-ethereum is not seamed (trusted)", "gas is not part of the digest", "the consensus state machine starts no goroutines (the go statements found by the rewriter are listed in evidence: daemon start-up only)"},
 		QuickBudget: 8 * time.Minute, ThoroughBudget: 30 * time.Minute,
 	})
@@ -38,8 +38,9 @@ type histResult struct {
 // c01Skeletons adds the two order-sensitive skeletons of DESIGN §C01.
 func c01Skeletons() []Skeleton {
 	sk := []Skeleton{
+		// R1 and R2 carry equal power: a two-way tie at the top of a weighted-mode query
 		{Name: "mode-tie", MintOn: true, Labels: []string{
-			"Tip(modeq,50)", "Submit(R1,modeq,std)", "Submit(R2,modeq,std200)", "Submit(RV1,modeq,7)", "Submit(RV2,modeq,7)", b1, b1, b1, b1,
+			"Tip(modeq,50)", "Submit(R1,modeq,std)", "Submit(R2,modeq,std200)", b1, b1, b1, b1,
 			"Tip(modeq2,777)", "Submit(R1,modeq2,std)", b1, b1, b1,
 		}},
 		{Name: "multi-reward", MintOn: true, Labels: []string{
@@ -52,8 +53,14 @@ func c01Skeletons() []Skeleton {
 		"Tip(cyc,1000)", "Submit(R1,cyc,std)", "Submit(RV1,cyc,7)", "Submit(RV2,cyc,7)", b1, b1, b1, b1,
 		"Tip(modeq,50)", "Submit(RV1,modeq,7)", "Submit(RV2,modeq,7)", "Submit(R2,modeq,std200)", b1, b1, b1,
 	}})
+	// three reporters of equal power report three different values: a three-way tie at the top of a weighted-mode query
+	// (two-way ties cannot tell a comparison against the running winner from one against the first winner)
+	sk = append(sk, Skeleton{Name: "three-way-mode-tie", MintOn: true, Cfg: Config{ValStakes: []int64{3000, 3000, 3000}}, Labels: []string{
+		"Tip(modeq,50)", "Submit(RV1,modeq,8)", "Submit(RV2,modeq,9)", "Submit(RV3,modeq,7)", b1, b1, b1,
+		"Tip(modeq,50)", "Submit(RV3,modeq,8)", "Submit(RV1,modeq,9)", "Submit(RV2,modeq,7)", "Submit(R1,modeq,std)", b1, b1, b1,
+	}})
 	for _, s := range Skeletons() {
-		if s.Name == "bridge" {
+		if s.Name == "bridge" || s.Name == "deposit-closing" {
 			continue // 2 000-block set-up per re-execution; the bridge paths are covered by "round-maxval2" valset changes
 		}
 		sk = append(sk, s)
@@ -79,6 +86,21 @@ func c01Alphabet(c *Cast) func(w *World) []Event {
 					return MsgSubmit(c.RV2.Acc, q, U256(7))
 				}
 				return nil
+			}),
+			ev1("Submit(RV1,modeq,8)", "submit-mode/tie3", func(w *World) sdkMsg { return MsgSubmit(c.RV1.Acc, c.ModeQ, U256(8)) }),
+			ev1("Submit(RV1,modeq,9)", "submit-mode/tie3", func(w *World) sdkMsg { return MsgSubmit(c.RV1.Acc, c.ModeQ, U256(9)) }),
+			ev1("Submit(RV2,modeq,9)", "submit-mode/tie3", func(w *World) sdkMsg { return MsgSubmit(c.RV2.Acc, c.ModeQ, U256(9)) }),
+			ev1("Submit(RV3,modeq,7)", "submit-mode/tie3", func(w *World) sdkMsg {
+				if c.RV3 == nil {
+					return nil
+				}
+				return MsgSubmit(c.RV3.Acc, c.ModeQ, U256(7))
+			}),
+			ev1("Submit(RV3,modeq,8)", "submit-mode/tie3", func(w *World) sdkMsg {
+				if c.RV3 == nil {
+					return nil
+				}
+				return MsgSubmit(c.RV3.Acc, c.ModeQ, U256(8))
 			}),
 			ev1("Submit(R1,modeq2,std)", "submit-mode/std", func(w *World) sdkMsg { return MsgSubmit(c.R1.Acc, c.ModeQ2, U256(100)) }),
 		)
@@ -220,9 +242,9 @@ func checkC01(rc *RunCtx) {
 				continue
 			}
 			perSite[oc.site]++
-			if rc.Quick() && perSite[oc.site] > 2 {
+			if rc.Quick() && (perSite[oc.site] > 2 || (ndev > 0 && perSite[oc.site] > 1)) {
 				rc.Count("occurrences_skipped_quick", 1)
-				continue // quick tier: first two dynamic occurrences per site and history
+				continue // quick tier: first two dynamic occurrences per site and skeleton history, the first one in deviated histories
 			}
 			rc.Count("order_sensitive_occurrences", 1)
 			for _, perm := range altOrders(oc.n) {
@@ -254,7 +276,7 @@ func checkC01(rc *RunCtx) {
 			rc.Sample(map[string]interface{}{"skeleton": s.Name, "events": s.Labels})
 		}
 		// k=1: every single inserted/substituted event
-		if rc.Quick() && s.Name != "mode-tie" && s.Name != "multi-reward" && s.Name != "equal-power-reward" {
+		if rc.Quick() && s.Name != "multi-reward" && s.Name != "equal-power-reward" && s.Name != "three-way-mode-tie" {
 			continue // quick tier: single deviations only around the two order-sensitive skeletons
 		}
 		w := NewWorld(s.Cfg)
